@@ -100,6 +100,16 @@ def check(case, ctx):
         B = model("BOOL")
         skel = Inside(RG(B, G.S, G.V, [(True, h, b) for (w, h, b) in G.rules]))
         nz = [xs for xs in strings if skel(xs)]
+        # ... but a derivation may weigh 4e-16, below the 1e-12 at which the library's own fixed
+        # points discard increments: such strings may or may not be tabulated (not judged)
+        import math
+
+        def mag(v):
+            v = float(v)
+            return math.exp(v) if M.name == "LOG" else abs(v)
+
+        top = max([mag(want[xs]) for xs in strings] + [1.0])
+        optional = {xs for xs in nz if mag(want[xs]) <= 1e-9 * top}
     ctx.nontrivial = (any(len(xs) > 0 for xs in nz) and len(nz) < len(strings)) or bool(
         nz and "has_nullable" in ctx.classes
     )
@@ -158,6 +168,8 @@ def check(case, ctx):
         ctx.evals += 1
         have_keys = {tuple(k) for k, v in tab.items() if not M.is_zero(M.from_lib(v))}
         want_keys = {xs for xs in nz if len(xs) <= n}
+        if not M.exact:
+            want_keys = (want_keys - optional) | (have_keys & optional)
         if any(len(k) > n for k in tab):
             ctx.fail("materialize|toolong", f"materialize({n}) lists a string longer than {n}")
         if have_keys != want_keys:
